@@ -1,6 +1,6 @@
 #!/venv/bin/python
 """Runs every seeded change against checks in a scratch worktree (VERIF_REPO), records which checks catch it.
-usage: tools/mutant_matrix.py [tier] [name-filter ...]"""
+usage: [MM_ONLY_OWN=1] tools/mutant_matrix.py [tier] [name-filter ...]   (MM_ONLY_OWN: only the check of the broken property; results of related checks are kept)"""
 import json, os, subprocess, sys, shutil
 HERE = os.path.dirname(os.path.dirname(os.path.abspath(__file__)))
 tier = sys.argv[1] if len(sys.argv) > 1 else "quick"
@@ -26,7 +26,7 @@ for name in sorted(os.listdir(os.path.join(HERE, "seeded"))):
             rows.append((name, prop, "PATCH-DOES-NOT-APPLY", {}))
             continue
         caught = {}
-        for c in [prop] + RELATED.get(prop, []):
+        for c in [prop] + ([] if os.environ.get("MM_ONLY_OWN") else RELATED.get(prop, [])):
             env = dict(os.environ, VERIF_REPO=wt, VERIF_WORK=f"/tmp/vf-mm-work-{name}",
                        VERIF_EVIDENCE_DIR=f"/tmp/vf-mm-work-{name}/evidence", VERIF_REPLAY_DIR=f"/tmp/vf-mm-work-{name}/replays")
             p = subprocess.run([os.path.join(HERE, "check"), c, tier], capture_output=True, text=True, env=env, cwd=HERE)
@@ -34,7 +34,8 @@ for name in sorted(os.listdir(os.path.join(HERE, "seeded"))):
             first = next((l.strip() for l in p.stdout.splitlines() if l.startswith("  ") and "[" in l and not l.startswith("  observed") and not l.startswith("  slowest")), "")
             caught[c] = {"rc": p.returncode, "violations": len(viol), "first": first[:240]}
             shutil.rmtree(f"/tmp/vf-mm-work-{name}", ignore_errors=True)
-        meta["caught_by"] = {tier: caught}
+        prev = meta.get("caught_by", {}).get(tier, {}) if os.environ.get("MM_ONLY_OWN") else {}
+        meta["caught_by"] = {tier: dict(prev, **caught)}
         meta["caught_at_commit"] = subprocess.check_output(["git", "-C", HERE, "rev-parse", "--short", "HEAD"]).decode().strip()
         json.dump(meta, open(os.path.join(d, "meta.json"), "w"), indent=1)
         rows.append((name, prop, "ok", caught))
